@@ -346,8 +346,7 @@ class Lab:
                                  'exc': d['res'].get('exc'), 'msg': d['res'].get('msg')} for d in det])
         finally:
             shutil.rmtree(cache.root, ignore_errors=True)
-        return {'name': h['name'], 'events': events, 'obs': obs, 'details': details,
-                'calibration': h.get('calibration', False)}
+        return {'name': h['name'], 'events': events, 'obs': obs, 'details': details}
 
 
 # ---------------------------------------------------------------------------
@@ -428,8 +427,6 @@ def coq_case(h):
 
 def property_on_impl(h, crash_classes):
     """The property, evaluated on what the real processes did.  Returns None or (kind, text)."""
-    if h['calibration']:
-        return None
     complete_since = {}
     for k, (e, (ocs, fs, _t)) in enumerate(zip(h['events'], h['obs'])):
         if e[0] in ('run', 'sched'):
@@ -536,14 +533,16 @@ def _run(ctx, thorough, base):
     start = (seed, [seed_obs])
     first = ('run', 0)
 
-    def dmg_hist(name, evs, calibration=False):
-        histories.append({'name': name, 'events': [first] + evs, 'start': start, 'calibration': calibration})
+    def dmg_hist(name, evs):
+        histories.append({'name': name, 'events': [first] + evs, 'start': start})
     for cls in CLASSES:
-        # a completed .so cut inside its mapped pages: dlopen kills the interpreter before Python can react.
-        # By final_entries_complete no interrupted build of the repaired protocol leaves such a file under
-        # a final name; these histories calibrate the model (tie) and are not part of the property predicate.
+        # every size class is part of the property's quantifier, also the one where dlopen kills the
+        # interpreter before Python can react (a completed .so cut inside its mapped pages): it is evaluated
+        # like the others and reported under its own signature impl:interpreter-death:dmg-so-<class>
+        # (known_findings.json lists dmg-so-Header: by final_entries_complete no interrupted or concurrent
+        # build of the repaired protocol leaves such a file under a final name).
         if cls in ('Empty', 'Header', 'AllButLast') or thorough:
-            dmg_hist('dmg-so-%s' % cls, [('dmg', 'so', cls), ('run', 0)], calibration=cls in crash_classes)
+            dmg_hist('dmg-so-%s' % cls, [('dmg', 'so', cls), ('run', 0)])
     dmg_hist('dmg-pyx-c-o', [('dmg', 'pyx', 'Garbage'), ('dmg', 'c', 'Empty'), ('dmg', 'o', None), ('run', 0)])
     if thorough:
         dmg_hist('dmg-so-deleted', [('dmg', 'so', None), ('run', 0), ('run', 0)])
@@ -677,8 +676,9 @@ def _run(ctx, thorough, base):
     mut['obs'] = [([(o[0] + 1) % 5 if o else 1] if k == len(cases[0]['obs']) - 1 else o, f, t)
                   for k, (o, f, t) in enumerate(cases[0]['obs'])]
     selft = HEADER % orc_txt + 'Definition cases := [%s].\nEval vm_compute in bad New true 0 cases.\n' % coq_case(mut)
-    out = ctx.coq_eval_many([('C20_cases_000', defs + 'Eval vm_compute in bad New true 0 cases.\n'),
-                             ('C20_selftest', selft)])
+    tag = '%d' % os.getpid()          # concurrent runs of this check do not share generated files
+    out = ctx.coq_eval_many([('C20_cases_' + tag, defs + 'Eval vm_compute in bad New true 0 cases.\n'),
+                             ('C20_selftest_' + tag, selft)])
     ctx.obligations += 2
     (n1, ok1, o1), (n2, ok2, o2) = out
     log('[C20] model predictions compared, %.0fs' % (time.time() - t0))
@@ -689,15 +689,19 @@ def _run(ctx, thorough, base):
     else:
         ctx.discharged += 1
     if bad_new is None:
-        ctx.broken.append('case file C20_cases_000 did not evaluate: %s' % o1[-600:])
+        ctx.broken.append('case file C20_cases_%s did not evaluate: %s' % (tag, o1[-600:]))
         bad_new = []
     else:
         ctx.discharged += 1
     bad_old = None
     if bad_new:
         # diagnosis only: does the implementation behave as the model of the unrepaired protocol?
-        ok3, o3 = ctx.coq_eval('C20_cases_old', defs + 'Eval vm_compute in bad Old false 0 cases.\n')
+        ok3, o3 = ctx.coq_eval('C20_cases_old_' + tag, defs + 'Eval vm_compute in bad Old false 0 cases.\n')
         bad_old = parse_coq_list_of_nat(o3) if ok3 else None
+    import glob
+    for f in (glob.glob(os.path.join(VERIF, 'coq', 'gen', 'C20_*_%s.*' % tag))
+              + glob.glob(os.path.join(VERIF, 'coq', 'gen', '.C20_*_%s.*' % tag))):
+        os.remove(f)
     ctx.cov['disagreements_checked'] = len(bad_new)
     matches_old = bad_old == []
     for b in sorted(bad_new, key=lambda b: 0 if ('details' in cases[b] and property_on_impl(cases[b], crash_classes)) else 1)[:2]:
@@ -766,6 +770,7 @@ META = {
     'level_note': 'Partial: atomicity of rename(2), uniqueness of mkdtemp names, injectivity of the SHAKE digest and '
                   'the behaviour of dlopen on damaged files are assumptions of the model (the last one measured per '
                   'run); crash points inside a write are emulated by truncating the finished output. A completed .so '
-                  'cut inside its mapped pages from OUTSIDE still kills the interpreter (SIGBUS in dlopen); the '
-                  'theorems show no interrupted build can produce that state after the repair.',
+                  'cut inside its mapped pages from OUTSIDE still kills the interpreter (SIGBUS in dlopen): open '
+                  'finding impl:interpreter-death:dmg-so-Header; the theorems show no interrupted or concurrent '
+                  'build can produce that state after the repair.',
 }
